@@ -408,9 +408,9 @@ func c02RelexJS(t *fw.T, tt js.TokenType, tok []byte, viaRegExp bool, a int, buf
 			tt3, _ = l2.Next()
 		}
 	case tt == js.CommentToken && bytes.HasPrefix(tok, []byte("-->")):
-		// only a comment at the start of a line: keep that context
-		l2 := js.NewLexer(cp("\n"))
-		l2.Next()
+		// an HTML-like close comment is a comment only at the start of a line; the start of the input is one, so the
+		// token lexed on its own is the same comment again
+		l2 := js.NewLexer(cp(""))
 		tt2, tok2 = l2.Next()
 		tt3, _ = l2.Next()
 	case tt == js.TemplateStartToken:
